@@ -37,6 +37,10 @@ def all_cases(ctx):
             for fl in flags:
                 for k in [int(format(k, f"0{sb}b")[::-1], 2) for k in range(1 << sb)]:
                     cs.append(((un, reg, fl, k), (U, reg, fl, sb, k, None)))
+    # error-count dimension: K concrete ill-formed nodes (constant '0' with a self-loop = exactly one error each) + one fully symbolic node
+    for K in (9, 10, 11):
+        for fl in [(False, False, True, False), (True, False, True, False)]:
+            cs.append((("many", K, fl), (["a"] + [f"z{i}" for i in range(K)], False, fl, 0, 0, "many")))
     if not ctx.quick:
         sb3 = 8
         for fl in [(True, False, True, False), (False, True, True, True)]:
@@ -89,7 +93,18 @@ def run(ctx):
     ctx.functions(utils.lint)
     for cid, (U, reg, fl, sb, k, types) in ctx.cases(all_cases(ctx)):
         vars_ = sg.make_vars(U)
-        pre = sg.base_pre(vars_, types=types or (TYPES + ["UNSUPPORTED", "MISSING"]))
+        if types == "many":
+            pre = sg.base_pre(vars_, types=TYPES + ["UNSUPPORTED", "MISSING"])
+            P_, T_, O_, E_ = vars_
+            for z in U[1:]:
+                pre += [P_[z], T_[z] == TS["0"], z3.Not(O_[z])]
+            for (u, v), e in E_.items():
+                if u == v and u != "a":
+                    pre.append(e)
+                elif not (u == "a" and v == "a"):
+                    pre.append(z3.Not(e))
+        else:
+            pre = sg.base_pre(vars_, types=types or (TYPES + ["UNSUPPORTED", "MISSING"]))
         registry = {"bb": (["i"], ["o"])} if reg else {}
         fail_fast, unloaded, undriven, single = fl
 
